@@ -363,6 +363,41 @@ def rule_branch_tables(ctx):
             if is_const(rhs, 1) and st['pl']['p'] and st['pl']['p'][-1]['k'] == 'index':
                 arms.setdefault(arm_of(tab.get(bi, ())), set()).add('one-hot')
         want = {INF: {'max_by', 'fill:0', 'one-hot'}, 0.0: {'fill:uniform'}, -INF: {'min_by', 'fill:0', 'one-hot'}, 'else': {'exp'}}
+        if arms != want:
+            # the same table read off the *paths* of the function (feasible paths under constant propagation): robust to
+            # arms that share a tail (`let pure = if inf { max } else if -inf { min } else { softmax; return }; fill; one-hot`)
+            import absint
+            it = absint.run(f, absint.ReturnPaths(), cap=20000, revisit=True)
+            if not it.overflow and it.paths:
+                parms = {}
+                for pth in it.paths:
+                    cs = absint.path_conds(f, pth)
+                    pos = [c for c in cs if c['kind'] == 'Gt' and c.get('b') is not None and is_const(c['b'], 0) and q.is_call(strip_refs(c['a']), 'sum')]
+                    if not pos or pos[-1]['truth'] is not False:
+                        continue
+                    key = []
+                    for c in cs:
+                        if c['kind'] == 'Eq' and is_np(c['a']) and c['b'][0] == 'const':
+                            key.append((float(c['b'][1]), c['truth']))
+                    arm = arm_of(tuple(key))
+                    fx = set()
+                    for bi in pth.trace:
+                        t = f.blocks[bi]['term']
+                        if t['t'] == 'call':
+                            sp = short(t['callee'].get('path') or t['callee'].get('def') or '')
+                            if sp in ('max_by', 'min_by', 'exp'):
+                                fx.add(sp)
+                            elif sp == 'fill':
+                                v = strip_refs(f.call_expr(t, bi)[2][1])
+                                fx.add('fill:' + ('0' if is_const(v, 0) else 'uniform' if v[0] == 'bin' and v[1] == 'Div' and is_const(v[2], 1) else '?'))
+                        for st in f.blocks[bi]['stmts']:
+                            if st['s'] == 'assign' and st['pl']['p'] and st['pl']['p'][-1]['k'] == 'index' and is_const(f.rvalue_expr(st['rv'], bi), 1):
+                                fx.add('one-hot')
+                    parms.setdefault(arm, []).append(frozenset(fx))
+                if parms and all(len(set(v)) == 1 for v in parms.values()):
+                    arms = {k: set(v[0]) for k, v in parms.items()}
+                elif parms:
+                    arms = {k: set().union(*v) for k, v in parms.items()}
         ctx.verdict(arms == want, rule, rule + ':fallback', 'without positive regret: weight +inf plays the arg-max, 0 plays uniformly, -inf plays the arg-min, anything else a softmax', f.where(0),
                     'arms: %s' % {k: sorted(v) for k, v in arms.items()}, breaks='the documented fallback strategy is not the one played')
         # main branch: proportional to positive regret
@@ -379,6 +414,16 @@ def rule_branch_tables(ctx):
                     flt = q.find_sub(den, lambda s: q.is_call(s, 'filter'))
                     pred, cf, agg = q.closure_pred(lib, flt[2][1]) if flt is not None else (None, None, None)
                     ok = q.is_call(den, 'sum') and pred is not None and pred[0] == 'Gt' and is_const(pred[2], 0)
+                    if not ok and q.is_call(den, 'sum'):
+                        # the same selection as `filter_map(|r| (r > 0.0).then_some(r))`
+                        fm = q.find_sub(den, lambda s: q.is_call(s, 'filter_map'))
+                        cfm, _ = q.closure_of(lib, fm[2][1]) if fm is not None and len(fm[2]) > 1 else (None, None)
+                        if cfm is not None:
+                            rr = strip_refs(q.ret_expr(cfm))
+                            if q.is_call(rr, 'then_some') and len(rr[2]) == 2:
+                                cm = facts.cmp_of(strip_refs(rr[2][0]))
+                                ok = cm is not None and cm[0] == 'Gt' and is_const(cm[2], 0) and norm(cm[1]) == norm(rr[2][1])
+                                ctx.touch(cfm)
         ctx.verdict(ok, rule, rule + ':proportional', 'with positive regret the strategy is regret / (sum of the positive regrets) on positive entries and 0 elsewhere', f.where(0), 'recognised: %s' % ok,
                     breaks='regret matching is not proportional to positive cumulative regret')
         # softmax uses no_positive
